@@ -218,7 +218,11 @@ func (s *shadow) leftovers() []*region {
 	return res
 }
 
-func (s *shadow) violations() []string { s.mu.Lock(); defer s.mu.Unlock(); return append([]string(nil), s.viol...) }
+func (s *shadow) violations() []string {
+	s.mu.Lock()
+	defer s.mu.Unlock()
+	return append([]string(nil), s.viol...)
+}
 
 // failedCalls reports whether a call with the given name prefix was failed by the plan.
 func (s *shadow) failed(prefix string) bool {
